@@ -20,6 +20,7 @@ type tbl struct {
 	invoke   map[*types.Func]func(ip *absint.Interp, args []absint.Value) absint.Value   // interface method
 	invokeN  map[string]func(ip *absint.Interp, args []absint.Value) absint.Value        // interface method by name (external interfaces)
 	typeTest func(v absint.Value, T types.Type) (bool, bool)
+	typeTestC func(ip *absint.Interp, v absint.Value, T types.Type) (bool, bool) // may consult the choice tape
 	field    func(ip *absint.Interp, obj *absint.Tok, name string, typ types.Type) absint.Value
 	global   func(g *ssa.Global) absint.Value
 	dynamic  func(ip *absint.Interp, fn absint.Value, args []absint.Value) (absint.Value, bool)
@@ -86,6 +87,44 @@ func (t *tbl) Call(ip *absint.Interp, site ssa.CallInstruction, args []absint.Va
 		return t.newErr(cal.Name()), true
 	case full == "fmt.Sprintf" || full == "fmt.Sprint":
 		return &absint.Opaque{Why: "text"}, true
+	case full == "sort.Slice" || full == "sort.SliceStable":
+		// the standard sorts, modelled as a stable insertion sort under the interpreted index comparator
+		l, ok := args[0].(*absint.List)
+		if !ok {
+			return nil, false
+		}
+		less := func(i, j int) bool {
+			r, ok := ip.CallValue(args[1], absint.Int(i), absint.Int(j)).(absint.Bool)
+			if !ok {
+				panic(&absint.Undecided{Msg: "index comparator did not return a boolean"})
+			}
+			return bool(r)
+		}
+		for i := 1; i < len(l.Elems); i++ {
+			for j := i; j > 0 && less(j, j-1); j-- {
+				l.Elems[j], l.Elems[j-1] = l.Elems[j-1], l.Elems[j]
+			}
+		}
+		return nil, true
+	case full == "sort.Strings":
+		l, ok := args[0].(*absint.List)
+		if !ok {
+			return nil, false
+		}
+		for i := 1; i < len(l.Elems); i++ {
+			for j := i; j > 0; j-- {
+				a, ok1 := l.Elems[j].(absint.Str)
+				b, ok2 := l.Elems[j-1].(absint.Str)
+				if !ok1 || !ok2 {
+					panic(&absint.Undecided{Msg: "sort.Strings on non-literal elements"})
+				}
+				if !(a < b) {
+					break
+				}
+				l.Elems[j], l.Elems[j-1] = l.Elems[j-1], l.Elems[j]
+			}
+		}
+		return nil, true
 	}
 	return nil, false
 }
@@ -102,6 +141,9 @@ func wrapArg(full string, args []absint.Value) (absint.Value, bool) {
 }
 
 func (t *tbl) TypeTest(ip *absint.Interp, v absint.Value, T types.Type) (bool, bool) {
+	if t.typeTestC != nil {
+		return t.typeTestC(ip, v, T)
+	}
 	if t.typeTest != nil {
 		return t.typeTest(v, T)
 	}
